@@ -165,14 +165,18 @@ def run_check(prop: str, tier: str, seed: int, jobs: int) -> int:
         if extra is not None:
             total.merge(extra)
 
+    nondet = None
     # determinism self-check: replay first and a middle item in this (fresh w.r.t. those items) process
     if not getattr(mod, "SKIP_DETERMINISM", False):
         _worker_init(prop)
         for idx in sorted({0, len(items) // 2}):
             _, res, err = _worker_run((idx, items[idx]))
             if err or res.digest() != digests[idx]:
-                print(f"HARNESS-ERROR nondeterministic replay of item {idx}: {err or 'digest differs'}", flush=True)
-                return 2
+                # decided after the violations have been printed: a library whose answer depends on what the process
+                # computed before (a stale memo, state carried over) shows up here first, and the violations found in
+                # the same run are the finding to report then, not a harness failure
+                nondet = f"nondeterministic replay of item {idx}: {err or 'digest differs'}"
+                break
 
     known = fw.load_known_findings(prop)
     new, matched = [], {}
@@ -257,6 +261,12 @@ def run_check(prop: str, tier: str, seed: int, jobs: int) -> int:
         f"violations_new={len(new)} known={len(matched)} wall={wall:.1f}s",
         flush=True,
     )
+    if nondet:
+        if rc == 0:
+            print(f"HARNESS-ERROR {nondet}", flush=True)
+            return 2
+        print(f"NOTE {nondet} (the same work item gave different observations in two processes with different "
+              f"histories; violations above stand)", flush=True)
     if rc == 0 and vacuous:
         print(f"HARNESS-ERROR vacuous exploration: distinct_nontrivial={total.distinct_nontrivial}", flush=True)
         return 2
